@@ -99,10 +99,59 @@ def r3_age_window_is_modular(cx):
         cx.check("stamp-is-hours-mod-65536", divs == [3600] and masks == [0xffff], site_of(b), "the stamp is (now / 3600) & 0xffff (divisors %s, masks %s)" % (divs, masks))
 
 
+def r4_text_codec_buffer(cx):
+    """The base-62 text of l bytes has at most ceil(l * 8 / log2(62)) digits; `to_base62` writes one digit per
+    position of a work buffer allocated up front (`buf[buflen] = d` in base62_add_mult_16, no growth).  The
+    reviewed table discharges those index sites *because* the buffer is large enough - this rule checks that
+    premise: the allocation's length, read as an arithmetic term over the input length, is compared with the
+    digit count for every input length up to 65535 (the largest datagram / beacon body) and asymptotically."""
+    import math
+    from ..arith import term_of, evaluate, show, leaves
+    prog = cx.prog
+    enc = prog.body("util::to_base62")
+    cx.touch(enc)
+    allocs = [(bi, t) for bi, t in enc.calls() if callee_is(t, "vec::from_elem")]
+    cx.exact("work-buffer-allocations", len(allocs), 1, "vec![0; n] allocations in to_base62")
+    # no later growth of the work buffer: the helper indexes it, it is never pushed to / resized
+    grow = [bi for bi, t in enc.calls() if callee_is(t, "vec::Vec::push", "vec::Vec::resize", "vec::Vec::extend_from_slice", "vec::Vec::reserve")]
+    for bi, t in allocs:
+        term = term_of(enc, t["args"][1])
+        opaque = [x for x in leaves(term) if x[0] == "leaf"]
+        lens = sorted({x[1] for x in leaves(term) if x[0] == "len"})
+        if opaque or len(lens) != 1:
+            cx.check("work-buffer-term", False, site_of(enc, bi), "the work buffer's length %s is not an arithmetic term over the input length" % show(term))
+            continue
+        cx.check("work-buffer-term", True, site_of(enc, bi), "work buffer length = %s" % show(term), how="arith")
+        ratio = 8 / math.log2(62)
+
+        def digits(l):
+            # exact: number of base-62 digits of 256**l - 1
+            n = (1 << (8 * l)) - 1
+            c = 0
+            while n:
+                n //= 62
+                c += 1
+            return c
+        bad = None
+        for l in list(range(1, 2049)) + [4096, 8191, 16384, 32768, 65535]:
+            v = evaluate(term, {lens[0]: l})
+            if v is None or v < digits(l):
+                bad = (l, v, digits(l))
+                break
+        big = 10 ** 9
+        vb = evaluate(term, {lens[0]: big})
+        if bad is None and (vb is None or vb < math.ceil(big * ratio)):
+            bad = (big, vb, math.ceil(big * ratio))
+        cx.check("work-buffer-holds-all-digits", bad is None and not grow, site_of(enc, bi),
+                 "the work buffer holds every digit of an l-byte input (needs ceil(l*8/log2 62) ~ 1.344 l)" +
+                 ("" if bad is None else ": for l = %d it has %s positions but %d digits can be produced" % bad), how="arith")
+
+
 RULES = [
     ("C17.R1", r1_extraction_total, "beacon extraction is total: panic sites proved or reviewed; the scan advances"),
     ("C17.R2", r2_lossy_codec_repaired, "decoded beacon bytes are length-restored before positional use (base-62 drops leading zero bytes)"),
     ("C17.R3", r3_age_window_is_modular, "the age window is decided in modular 16-bit arithmetic in both directions"),
+    ("C17.R4", r4_text_codec_buffer, "the text codec's work buffer holds every digit of the encoded body (premise of the reviewed index sites)"),
 ]
 
 LEVEL_TEXT = ("Totality enumeration and a source-to-sink rule on MIR: every panic-capable construct reachable from BeaconSerializer::decode is enumerated; the "
